@@ -328,6 +328,17 @@ fn run(ctx: &mut Ctx) {
             if k as u64 % 16 != part {
                 continue;
             }
+            // the valid name with one more character in front / behind (a comparison on the first or last 4 bytes only)
+            for extra in ['\0', ' ', '0', 'A', 'a', '\n', 'é', '1', '_'] {
+                for st in [format!("{}{}", name, extra), format!("{}{}", extra, name), format!("{}{}{}", name, extra, extra)] {
+                    ctx.eval();
+                    match guard(|| (got(&st), specific_ok(&st, &got(&st)))) {
+                        Ok((None, true)) => ctx.count("valid names with an extra character rejected"),
+                        Ok((g, ok)) => ctx.violation("undocumented bank name accepted", format!("{:?} (a valid name with an extra character): got {:?}, specific parsers consistent: {}", st, g, ok), json!({"name": st, "bytes": hex(st.as_bytes())})),
+                        Err(p) => ctx.panic_violation("bank name parser", &p, json!({"name": st, "bytes": hex(st.as_bytes())})),
+                    }
+                }
+            }
             let chars: Vec<char> = name.chars().collect();
             for pos in 0..chars.len() {
                 let c = chars[pos] as u32;
@@ -440,6 +451,27 @@ fn run(ctx: &mut Ctx) {
                     Ok((gx, gy)) if gx == table[x] && gy == table[y] => ctx.count("first / second questions of a new thread agree with the reference table"),
                     Ok((gx, gy)) => {
                         ctx.violation("pad position of a (run, board, chip, channel) depends on the calls made before", format!("board {}: a new thread asked run {} then run {}: got {:?} then {:?}, reference {:?} then {:?}", b.name(), rx, ry, gx, gy, table[x], table[y]), json!({"board": b.name(), "runs": [rx, ry]}));
+                        return;
+                    }
+                    Err(pn) => {
+                        ctx.panic_violation("TpcPadPosition::try_new", &pn, json!({"board": b.name()}));
+                        return;
+                    }
+                }
+            }
+        }
+        // wire lookups in between (the event builder asks wires first, then pads): pad(run x), wire(run y), pad(run y)
+        let wb0 = a16[(bi % 8) as usize];
+        let ch0 = Adc32ChannelId::try_from((bi % 32) as u8).unwrap();
+        for x in 0..n {
+            for y in 0..n {
+                ctx.eval();
+                let (rx, ry) = (hist_runs[x], hist_runs[y]);
+                let f = move |r: u32| TpcPadPosition::try_new(r, b, a, pc).ok().map(|p| (usize::from(p.column), usize::from(p.row)));
+                match fresh_thread(move || (f(rx), TpcWirePosition::try_new(ry, wb0, ch0).ok().map(usize::from), f(ry))) {
+                    Ok((gx, gw, gy)) if gx == table[x] && gy == table[y] && gw.is_some() == (ry >= 2941) => ctx.count("pad, wire, pad questions of a new thread agree with the reference table"),
+                    Ok((gx, gw, gy)) => {
+                        ctx.violation("pad position of a (run, board, chip, channel) depends on the calls made before", format!("board {}: a new thread asked pad at run {}, a wire at run {}, pad at run {}: got {:?}, {:?}, {:?}; reference {:?}, wire map {}, {:?}", b.name(), rx, ry, ry, gx, gw, gy, table[x], if ry >= 2941 { "exists" } else { "missing" }, table[y]), json!({"board": b.name(), "runs": [rx, ry]}));
                         return;
                     }
                     Err(pn) => {
